@@ -416,6 +416,12 @@ def rule_zero_below_sp(ctx):
         zero_loops += 1
         ctx.check(okz, R, "zero-" + ("prefix" if is_prefix else "remainder"), b.where(h), "every byte of the %s is set to 0" % ("prefix below SP" if is_prefix else "trailing partial word"),
                   "%s loop does not simply zero each byte" % ("prefix" if is_prefix else "remainder"))
+    # a prefix cleared with `stack_copy[0..offset].fill(0)` instead of a loop
+    for bi, t in b.calls(lambda c: (c.short or "").split("::")[-1] == "fill"):
+        a = o.call_args(bi)
+        if len(a) == 2 and core(a[1]) == ("const", 0, "u8") and any(s_[0] == "agg" and s_[1].endswith("ops::Range") for s_ in walk(a[0])) and any(s_ == ("param", 2) for s_ in walk(a[0])):
+            zero_loops += 1
+            ctx.ok(R, "zero-prefix", b.where(bi), "every byte of the prefix below SP is set to 0 (slice fill)")
     ctx.floor(R, "zeroing loops (prefix + remainder)", zero_loops, 2)
     # the slice is never resized: stack_copy is &mut [u8] (a slice cannot change length) — check the parameter type
     ctx.check(b.locals[2]["ty"] == "&mut [u8]", R, "length-preserved", b.where(0), "the stack copy is a `&mut [u8]`: its length cannot change", "stack copy parameter type is %s" % b.locals[2]["ty"], nontrivial=False)
